@@ -241,6 +241,8 @@ pub struct Plan {
     pub script: Vec<Action>,
     pub cost_ns: u64,
     pub stalls: Vec<(u64, u64)>,
+    /// virtual time a context switch costs (scheduling latency fault)
+    pub switch_ns: u64,
     pub preempts: Vec<Preempt>,
     /// Some(..) = generation mode: draw preemptions from this policy with `sched_seed`.
     pub policy: Option<Policy>,
@@ -260,6 +262,7 @@ impl Plan {
             script: vec![],
             cost_ns: 1000,
             stalls: vec![],
+            switch_ns: 0,
             preempts: vec![],
             policy: None,
             sched_seed: 0,
@@ -277,6 +280,7 @@ impl Plan {
             .set("seed", self.seed)
             .set("script", self.script.iter().map(Action::to_json).collect::<Vec<_>>())
             .set("cost_ns", self.cost_ns)
+            .set("switch_ns", self.switch_ns)
             .set(
                 "stalls",
                 self.stalls
@@ -300,6 +304,7 @@ impl Plan {
             p.script.push(Action::from_json(&a)?);
         }
         p.cost_ns = j.u("cost_ns");
+        p.switch_ns = j.u("switch_ns");
         for s in j.a("stalls") {
             let a = s.as_arr().ok_or("bad stall")?;
             p.stalls.push((
@@ -356,6 +361,8 @@ pub struct Ev {
     pub ticks: u64,
     pub tticks: u64,
     pub tyields: u64,
+    /// cumulative injected delay (stalls + switch latencies) so far
+    pub stalled: u64,
     pub k: EvK,
 }
 
@@ -469,6 +476,8 @@ struct State {
     clock_jumps: u64,
     deliveries: u64,
     exit_req_ticks: Option<u64>,
+    /// ticks at the moment the input thread blocked (None while it is not blocked)
+    t0_blocked_ticks: Option<u64>,
     preempts_applied: u64,
 }
 
@@ -480,6 +489,8 @@ pub struct Kernel {
     ticks: AtomicU64,
     tticks: [AtomicU64; NT],
     cost_ns: AtomicU64,
+    switch_ns: AtomicU64,
+    stalled: AtomicU64,
     next_stall_tick: AtomicU64,
     tick_cap: AtomicU64,
     tick_cap_hit: AtomicBool,
@@ -604,6 +615,8 @@ impl Kernel {
             ticks: AtomicU64::new(0),
             tticks: [const { AtomicU64::new(0) }; NT],
             cost_ns: AtomicU64::new(1000),
+            switch_ns: AtomicU64::new(0),
+            stalled: AtomicU64::new(0),
             next_stall_tick: AtomicU64::new(u64::MAX),
             tick_cap: AtomicU64::new(u64::MAX),
             tick_cap_hit: AtomicBool::new(false),
@@ -685,6 +698,7 @@ impl Kernel {
             clock_jumps: 0,
             deliveries: 0,
             exit_req_ticks: None,
+            t0_blocked_ticks: None,
             preempts_applied: 0,
         };
         self.clock.store(0, Relaxed);
@@ -693,6 +707,8 @@ impl Kernel {
             t.store(0, Relaxed);
         }
         self.cost_ns.store(plan.cost_ns.max(1), Relaxed);
+        self.switch_ns.store(plan.switch_ns, Relaxed);
+        self.stalled.store(0, Relaxed);
         self.next_stall_tick
             .store(stalls.first().map_or(u64::MAX, |s| s.0), Relaxed);
         self.tick_cap.store(plan.tick_cap, Relaxed);
@@ -871,6 +887,7 @@ impl Kernel {
             ticks: self.ticks.load(Relaxed),
             tticks: self.tticks[tid.min(NT - 1)].load(Relaxed),
             tyields: st.label_counts[tid.min(NT - 1)].iter().sum(),
+            stalled: self.stalled.load(Relaxed),
             k,
         };
         st.events.push(ev);
@@ -984,6 +1001,11 @@ impl Kernel {
 
     fn note_switch(&self, st: &mut State, from: usize, to: usize, label: L, preempt: bool) {
         st.switches += 1;
+        let lat = self.switch_ns.load(Relaxed);
+        if lat > 0 {
+            self.clock.fetch_add(lat, Relaxed);
+            self.stalled.fetch_add(lat, Relaxed);
+        }
         let mut x = st.switch_hash ^ ((from as u64) << 40 | (label as u64) << 32 | to as u64);
         st.switch_hash = super::rng::splitmix64(&mut x);
         self.push_ev(
@@ -1095,8 +1117,10 @@ impl Kernel {
             drop(g);
             std::panic::resume_unwind(Box::new(AbortRun));
         }
-        if let Some(t) = st.exit_req_ticks {
-            if me != 0 && self.ticks.load(Relaxed).saturating_sub(t) > EXIT_ALLOW_TICKS {
+        // Only time during which the input thread is BLOCKED counts (a runnable thread that the
+        // scheduler keeps waiting is the scheduler's doing, not the engine's).
+        if let (Some(req), Some(b)) = (st.exit_req_ticks, st.t0_blocked_ticks) {
+            if me != 0 && self.ticks.load(Relaxed).saturating_sub(b.max(req)) > EXIT_ALLOW_TICKS {
                 self.end_run(st, EndReason::ExitOverdue);
                 drop(g);
                 std::panic::resume_unwind(Box::new(AbortRun));
@@ -1144,12 +1168,20 @@ impl Kernel {
         }
         if me == 0 {
             self.push_ev(st, me, EvK::WaitBegin(what.to_string()));
+            st.t0_blocked_ticks = Some(self.ticks.load(Relaxed));
         }
         st.threads[me].status = Status::Blocked(cond);
         st.hold = 0;
         self.dispatch(st, me, label, true);
-        if self.wait_cpu(g, me).is_none() {
-            std::panic::resume_unwind(Box::new(AbortRun));
+        match self.wait_cpu(g, me) {
+            None => std::panic::resume_unwind(Box::new(AbortRun)),
+            Some(mut g) => {
+                if me == 0 {
+                    if let Some(st) = g.as_mut() {
+                        st.t0_blocked_ticks = None;
+                    }
+                }
+            }
         }
     }
 
@@ -1398,6 +1430,7 @@ impl Sim for Kernel {
                     let (_, ns) = st.stalls.pop_front().unwrap();
                     add += ns;
                     st.stall_ns += ns;
+                    self.stalled.fetch_add(ns, Relaxed);
                     st.stalls_fired += 1;
                     let who = cur.min(NT - 1);
                     self.push_ev(st, who, EvK::Stall(ns));
